@@ -769,18 +769,28 @@ Section Card.
   Lemma lvl_from_level k f : lvl_from k f = flat_map level (seq k f).
   Proof. unfold lvl_from. apply flat_map_ext. intro j. symmetry. apply level_wl. Qed.
 
+  (* an infinite language has at least n words shorter than lo + n*(|Q|+1): one per window *)
+  Lemma words_below_grow lo n : infinite_lang -> n <= length (words_below (lo + n * S (length (d_states m)))).
+  Proof.
+    intro Hinf. induction n as [|n IH]; [lia|].
+    set (Q := length (d_states m)) in *. set (L := lo + n * S Q) in *.
+    replace (lo + S n * S Q) with (L + S Q) by (unfold L; simpl; lia).
+    unfold words_below in *. rewrite seq_app, flat_map_app, app_length. change (0 + L) with L.
+    destruct (window_word m Hv Hinf L) as [w [Ha Hl]]. fold Q in Hl.
+    assert (Hin : In w (flat_map level (seq L (S Q)))).
+    { apply in_flat_map. exists (length w). split; [apply in_seq; lia|]. apply level_In. tauto. }
+    destruct (flat_map level (seq L (S Q))) as [|x l]; [destruct Hin|]. simpl length. lia.
+  Qed.
+
   (* iteration: the first n words of the (length, lexicographic) listing of the language; either n
      words were produced or the whole (finite) language was; an empty language yields nothing.
-     Running out of fuel can only be reported for an infinite language. *)
+     The level budget of an infinite language is sufficient: no other outcome. *)
   Theorem iter_upto_spec n :
-    match iter_upto m n with
-    | Ok ws => exists L, ws = firstn n (words_below L) /\
-                         (length ws = n \/ (forall w, dfa_acc m w = true -> In w ws))
-    | Err e => e = Fuel /\ infinite_lang
-    end.
+    exists ws L, iter_upto m n = Ok ws /\ ws = firstn n (words_below L) /\
+                 (length ws = n \/ (forall w, dfa_acc m w = true -> In w ws)).
   Proof.
     unfold iter_upto. destruct (isempty_spec m Hv) as [b [Ee Hb]]. rewrite Ee. cbn [bind]. destruct b.
-    - exists 0. split; [destruct n; reflexivity|]. right. intros w Ha.
+    - exists [], 0. split; [reflexivity|]. split; [destruct n; reflexivity|]. right. intros w Ha.
       destruct Hb as [Hb _]. rewrite (Hb eq_refl w) in Ha. discriminate.
     - pose proof (min_len_spec m Hv) as Hmin. unfold min_len_post in Hmin. pose proof max_len_spec as Hmax.
       assert (Hne : ~ (forall w, dfa_acc m w = false)) by (intro H; apply Hb in H; discriminate).
@@ -791,15 +801,17 @@ Section Card.
         rewrite lvl_from_level, (levels_from lo (S h - lo) Hmin).
         pose proof (Hmax w0 Ha0) as Hlo. replace (lo + (S h - lo)) with (S h) by lia.
         destruct (Nat.leb n (length (words_below (S h)))) eqn:E.
-        * exists (S h). split; [reflexivity|]. left. apply firstn_length_le. apply Nat.leb_le. exact E.
-        * cbn [bind]. exists (S h). rewrite app_nil_r. apply Nat.leb_gt in E. split.
+        * eexists. exists (S h). split; [reflexivity|]. split; [reflexivity|].
+          left. apply firstn_length_le. apply Nat.leb_le. exact E.
+        * cbn [bind]. eexists. exists (S h). split; [reflexivity|]. rewrite app_nil_r. apply Nat.leb_gt in E. split.
           -- symmetry. apply firstn_all2. lia.
           -- right. intros w Ha. apply words_below_In. split; [exact Ha|]. specialize (Hmax w Ha). lia.
       + rewrite iter_go_eq. fold q0. rewrite lvl_from_level, (levels_from lo _ Hmin).
         set (L := lo + n * S (length (d_states m))).
-        destruct (Nat.leb n (length (words_below L))) eqn:E.
-        * exists L. split; [reflexivity|]. left. apply firstn_length_le. apply Nat.leb_le. exact E.
-        * cbn [bind]. split; [reflexivity|exact Hmax].
+        assert (E : Nat.leb n (length (words_below L)) = true).
+        { apply Nat.leb_le. apply words_below_grow. exact Hmax. }
+        rewrite E. eexists. exists L. split; [reflexivity|]. split; [reflexivity|].
+        left. apply firstn_length_le. apply Nat.leb_le. exact E.
       + destruct e; contradiction.
   Qed.
 End Card.
